@@ -488,8 +488,93 @@ func syncDrainCase(prop string, nb int) {
 	emit("%s kind=syncdrain batches=%d => sync=%s head=%d readable=%d want=%d", prop, nb, res, hd, readable, 3*nb)
 }
 
+// a tail-side DeleteRange racing an Append at the head: the flush loop is parked in its look-up below the
+// (old) tail while the deleter completes; afterwards the chain [Tail:Head] must be gap-free, with the tail the
+// deleter set and the head the appender reached — the outcome of either sequential order.
+// after=false parks the flush loop before the Get; after=true parks it holding the (stale) answer.
+func tailRaceCase(prop string, t0, to, n int, after bool) {
+	ctx := context.Background()
+	chain := vhdr.Chain("A", n+1, time.Now().Add(-time.Hour).UnixNano(), 1e9, 0)
+	core := memds.NewCore()
+	st, err := store.NewStore[*vhdr.Header](&memds.Plain{C: core}, store.WithWriteBatchSize(8))
+	if err != nil {
+		panic(err)
+	}
+	if err := st.Start(ctx); err != nil {
+		panic(err)
+	}
+	defer st.Stop(ctx) //nolint:errcheck
+	_ = st.Append(ctx, chain[t0-1:n]...)
+	_ = st.Sync(ctx)
+	below := "/" + itoa(t0-1)
+	parked, release := make(chan struct{}), make(chan struct{})
+	var fired, once sync.Once
+	gate := func(key string) {
+		if strings.HasSuffix(key, below) {
+			fired.Do(func() { close(parked); <-release })
+		}
+	}
+	mid := uint64((t0 + to) / 2)
+	reached := "yes"
+	st.OnDelete(func(ctx context.Context, h uint64) error {
+		if h != mid {
+			return nil
+		}
+		once.Do(func() {
+			if after {
+				core.GetGateAfter = func(k string, _ bool) { gate(k) }
+			} else {
+				core.GetGate = gate
+			}
+			_ = st.Append(ctx, chain[n])
+			select {
+			case <-parked:
+			case <-time.After(2 * time.Second):
+				reached = "no"
+			}
+		})
+		return nil
+	})
+	dctx, cancel := context.WithTimeout(ctx, 5*time.Second)
+	derr := st.DeleteRange(dctx, uint64(t0), uint64(to))
+	cancel()
+	close(release)
+	sctx, cancel2 := context.WithTimeout(ctx, 3*time.Second)
+	serr := st.Sync(sctx)
+	cancel2()
+	core.GetGate, core.GetGateAfter = nil, nil
+	hd, tl := uint64(0), uint64(0)
+	if h, err := st.Head(ctx); err == nil {
+		hd = h.H
+	}
+	if h, err := st.Tail(ctx); err == nil {
+		tl = h.H
+	}
+	var stored []string
+	for h := 1; h <= n+1; h++ {
+		if x, err := st.GetByHeight(cancelled, uint64(h)); err == nil && x.H == uint64(h) {
+			if ok, _ := st.Has(ctx, x.Hash()); ok {
+				stored = append(stored, itoa(h))
+			}
+		}
+	}
+	emit("%s kind=tailrace t0=%d to=%d n=%d after=%v => parked=%s delete=%s sync=%s head=%d tail=%d stored=%s", prop, t0, to, n, after,
+		reached, errs(derr), errs(serr), hd, tl, strings.Join(stored, ","))
+}
+
+func errs(err error) string {
+	if err != nil {
+		return "err"
+	}
+	return "ok"
+}
+
 func runConc(prop, tier string, r *rng) {
 	if prop == "C17" {
+		for _, c := range [][3]int{{1, 10, 20}, {1, 3, 8}, {4, 12, 15}, {2, 7, 7}} {
+			tailRaceCase(prop, c[0], c[1], c[2], false)
+			tailRaceCase(prop, c[0], c[1], c[2], true)
+		}
 		for _, nb := range []int{2, 3, 5, 9} {
 			syncDrainCase(prop, nb)
 		}
